@@ -130,8 +130,8 @@ RULES["C07"] = (_STREAM + "oracle: independent decision model (exact-integer thr
                 "distinct: hash of the case JSON.")
 PROPS["C07"] = {
     "level": "exploration",
-    "quick": shards(6, "TestC07", 150, mode="period", floor=50) + [S("TestC07", 1, mode="poweron", floor=1, weight=2, env={"VERIF_TARGETS": tg}) for tg in ("passcount", "uniformity", "passcount", "two-items")]
-             + [S("TestC07", 1, mode="factory", floor=1, weight=2, env={"VERIF_TARGETS": tg}) for tg in ("passcount", "uniformity")],
+    "quick": shards(6, "TestC07", 150, mode="period", floor=50) + [S("TestC07", 1, mode="poweron", floor=1, weight=2, env={"VERIF_TARGETS": tg}) for tg in ("one-bad", "passcount", "uniformity", "mixed", "two-items")]
+             + [S("TestC07", 1, mode="factory", floor=1, weight=2, env={"VERIF_TARGETS": tg}) for tg in ("one-bad", "uniformity")],
     "thorough": shards(6, "TestC07", 1500, mode="period", floor=500) + shards(7, "TestC07", 20, mode="poweron", floor=6, weight=2, timeout=3400)
                 + shards(3, "TestC07", 8, mode="factory", floor=3, weight=2, timeout=3400),
     "assumptions": ["the registry runners' per-sample results are taken as given (their correctness is C01-C05/C15/C16)",
@@ -148,7 +148,8 @@ PROPS["C08"] = {
     "level": "exploration",
     "quick": [S("TestC08", 70, mode="period", cpus=c, floor=30) for c in _CPUS] + [S("TestC08", 70, mode="period", floor=30)]
              + [S("TestC08", 25, mode="period", race=True, floor=10, weight=3)]
-             + [S("TestC08", 1, mode="poweron", floor=1, weight=4, env={"VERIF_TARGETS": "mixed"}), S("TestC08", 1, mode="poweron", cpus="0-2", floor=1, weight=3, env={"VERIF_TARGETS": "one-bad,passcount,uniformity"}), S("TestC08", 1, mode="factory", floor=1, weight=4, env={"VERIF_TARGETS": "mixed,one-bad"})],
+             + [S("TestC08", 1, mode="poweron", floor=1, weight=3, env={"VERIF_TARGETS": "mixed"}), S("TestC08", 1, mode="poweron", floor=1, weight=3, env={"VERIF_TARGETS": "mixed"}),
+                S("TestC08", 1, mode="poweron", cpus="0-2", floor=1, weight=3, env={"VERIF_TARGETS": "one-bad"}), S("TestC08", 1, mode="factory", floor=1, weight=4, env={"VERIF_TARGETS": "one-bad"})],
     "thorough": [S("TestC08", 1500, mode="period", cpus=c, floor=400) for c in _CPUS] + shards(3, "TestC08", 1500, mode="period", floor=400)
              + shards(2, "TestC08", 300, mode="period", race=True, floor=100, weight=2)
              + [S("TestC08", 12, mode="poweron", cpus=c, floor=4, weight=3, timeout=3400) for c in ("0-1", "0-4", None, None)]
